@@ -20,6 +20,7 @@ RULE = ('Operation lists (3-25 ops) on one Sector with a sibling sector in the s
         'and cancellations are frequent. The invariant is checked after every operation. Non-trivial: the sequence '
         'contains a repeated flow, a cancelling pair, an exclusion that hits a later income flow, and a definition '
         'attempt on an existing variable (at least three of these four). Distinct: sha1 of the op list.')
+RULE = RULE + (' Input shapes added after the seeded-change rounds (DESIGN.md section 8): ' + 'qualified flow names (O__W), a same-coded twin sector in another country as exclusion target, product flows that are anagrams of each other (p1*q2, p2*q1), definitions that merely start with 0.0.')
 ASSUMPTIONS = [
     'a flow registered as income BEFORE an exclusion for it is added is treated as unspecified (its atoms are valued 0 '
     'when INC is compared), so either reading of "excluded" passes',
